@@ -247,6 +247,43 @@ theorem c06_banned_views (sgn : Bytes → Bytes) (s : State) (id : Nat) (hinv : 
         · cases hw
         · simp at hw; rw [← hw]; simp
 
+/-- `GET /api/v1/equipment` is the device table, nothing else: it answers for an id exactly what the
+equipment map holds for it. -/
+theorem c06_equipment_view (s : State) (id : Nat) :
+    FMap.get (equipmentQuery s) id = (FMap.get s.devices id).map (·.auth) := by
+  unfold equipmentQuery
+  exact FMap.get_map_val s.devices (·.auth) id
+
+/-- `GET /api/v1/recent-reports` answers for a key exactly when a registered, non-banned device owns
+that key, and then with that device's window. -/
+theorem c06_recent_view (s : State) (key : Key) (hinv : Inv s) :
+    (∀ reps off, recentQuery s key = some (reps, off) →
+      ∃ id d, FMap.get s.devices id = some d ∧ d.auth.key = key ∧ d.auth.id = id ∧ id ∉ s.bans ∧
+        reps = d.reports ∧ off = 0) ∧
+    (∀ id d, FMap.get s.devices id = some d → d.auth.key = key → recentQuery s key = some (d.reports, 0)) := by
+  refine ⟨?_, ?_⟩
+  · intro reps off h
+    unfold recentQuery at h
+    cases hk : FMap.get s.shortIds key with
+    | none => simp [hk] at h
+    | some id =>
+      obtain ⟨d, hd, hkey⟩ := hinv.shortDev key id hk
+      simp only [hk, hd, Option.some.injEq, Prod.mk.injEq] at h
+      refine ⟨id, d, hd, hkey, (hinv.devOk id d hd).1, ?_, h.1.symm, h.2.symm⟩
+      intro hb
+      rw [hinv.banned id hb] at hd
+      cases hd
+  · intro id d hd hkey
+    have := hinv.devShort id d hd
+    rw [hkey] at this
+    simp [recentQuery, this, hd]
+
+/-- A banned id is gone from the equipment listing (and, by `c06_recent_view`, no recent-reports reply
+is ever about a banned id). -/
+theorem c06_banned_views_http (s : State) (id : Nat) (hinv : Inv s) (h : id ∈ s.bans) :
+    FMap.get (equipmentQuery s) id = none := by
+  rw [c06_equipment_view, hinv.banned id h]; rfl
+
 /-- A new authorization adds exactly one device and touches nobody else. -/
 theorem c06_new_device (cfg : Cfg) (V : Verify) (s : State) (a : Auth) (hinv : Inv s)
     (h : (authorize cfg V s a).2 = .okNew) :
